@@ -5,7 +5,7 @@
    (ParseDuration / Duration.String), Model/C18Check.v (boolean forms). *)
 From Coq Require Import List NArith ZArith Bool String.
 From RareV Require Import Gen.GenTime Base.Hex Base.Num Model.Calendar Model.TimeFmt Model.Duration Model.C18Check.
-From RareV Require Import Proofs.CalendarSweep Proofs.CalendarProof Proofs.CalendarBucket Proofs.TimeFmtTok Proofs.TimeFmtProof Proofs.TimeFmtAttr Proofs.DurationProof.
+From RareV Require Import Proofs.CalendarSweep Proofs.CalendarProof Proofs.CalendarBucket Proofs.TimeFmtTok Proofs.TimeFmtProof Proofs.TimeFmtRfc822z Proofs.TimeFmtAttr Proofs.DurationProof.
 Import ListNotations.
 Local Open Scope Z_scope.
 
@@ -99,11 +99,28 @@ Theorem C18_roundtrip_kf : forall fmt t off abbr names lo fo,
 Proof. exact roundtrip_kf. Qed.
 Print Assumptions C18_roundtrip_kf.
 
-(* RFC822Z (two-digit year, no seconds) also holds date, time and numeric offset but is not covered:
-   _partial — the theorem above is for the five layouts with a four-digit year and seconds *)
-Example C18_roundtrip_partial_rfc822z_example :
-  kf_time (kf_timeformat (s2b "1583020800") (s2b "RFC822Z") 3600 []) (s2b "RFC822Z") [] 0 0 = s2b "1583020800".
-Proof. vm_compute. reflexivity. Qed.
+(* RFC822Z ("02 Jan 06 15:04 -0700") also holds date, time and numeric offset, with a two-digit year and
+   no seconds: the instant comes back cut to the minute exactly when the local year is 1969..2068
+   (local time in [1969-01-01, 2069-01-01)), for every whole-minute offset within +-24 h ... *)
+Theorem C18_roundtrip_rfc822z : forall t off abbr,
+  in_range_822 t off = true -> rt_offset off = true ->
+  exists p, parse_layout (named_format (s2b "RFC822Z")) (format_layout (named_format (s2b "RFC822Z")) (civil_of t 0 off abbr)) = Some p /\
+            forall names lo fo, resolve names lo fo p = (t - t mod 60, off).
+Proof. exact rt_rfc822z. Qed.
+Print Assumptions C18_roundtrip_rfc822z.
+Theorem C18_roundtrip_kf_rfc822z : forall fmt t off abbr names lo fo,
+  upper fmt = s2b "RFC822Z" -> in_range_822 t off = true -> rt_offset off = true ->
+  kf_time (kf_timeformat (itoa t) fmt off abbr) fmt names lo fo = itoa (t - t mod 60).
+Proof. exact roundtrip_kf_rfc822z. Qed.
+Print Assumptions C18_roundtrip_kf_rfc822z.
+(* ... and not outside: the first second of 2069 comes back as 1969-01-01, the last minute of 1968 as 2068-12-31 23:59 *)
+Theorem C18_roundtrip_rfc822z_refuted_outside :
+  kf_time (kf_timeformat (s2b "3124224000") (s2b "RFC822Z") 0 (s2b "UTC")) (s2b "RFC822Z") [] 0 0 = s2b "-31536000" /\
+  kf_time (kf_timeformat (s2b "-31536060") (s2b "RFC822Z") 0 (s2b "UTC")) (s2b "RFC822Z") [] 0 0 = s2b "3124223940".
+Proof. exact rfc822z_refuted_outside. Qed.
+Example C18_rfc822z_window : in_range_822 (-31536000) 0 = true /\ in_range_822 3124223999 0 = true /\
+  in_range_822 3124224000 0 = false /\ in_range_822 (-31536001) 0 = false.
+Proof. vm_compute. repeat split; reflexivity. Qed.
 
 (* ---- buckettime: two instants in the same unit of local time (same truncation) get the same
    key, for each of the seven bucket layouts of the table; the truncation is not after the instant;
